@@ -4,6 +4,7 @@
   run_check.py --property C14 --tier quick|thorough     run the check, write evidence/C14.json
   run_check.py --replay replays/C14-....json             PRNG-free replay of a violation
   run_check.py --property C14 --index 17 [--dump]        re-run one planned run (debugging)
+  run_check.py --trace-core FILE                         internal (C20 hash-seed runs)
 
 Exit 0: held on everything explored (KNOWN-FINDING lines possible); 1: VIOLATION; 2: harness error."""
 import argparse
@@ -19,6 +20,7 @@ def main():
     ap.add_argument('--tier', default=os.environ.get('VERIF_TIER', 'quick'), choices=['quick', 'thorough'])
     ap.add_argument('--replay')
     ap.add_argument('--index', type=int)
+    ap.add_argument('--trace-core', help='internal: print the trace digest of one core spec (C20 hash-seed runs start fresh interpreters with this)')
     ap.add_argument('--workers', type=int)
     ap.add_argument('--budget', type=float)
     a = ap.parse_args()
@@ -34,6 +36,9 @@ def main():
     from sim import runner
     seed = int(os.environ.get('VERIF_SEED', '1') or '1')
     try:
+        if a.trace_core:
+            from scenarios import c20
+            return c20.trace_core_main(a.trace_core)
         if a.replay:
             return runner.replay_file(a.replay)
         if not a.property:
